@@ -154,7 +154,8 @@ Theorem C10_no_cross : forall s w sel, WF s -> sel_ok s w sel ->
 Proof. exact clone_no_cross. Qed.
 
 (* "Later changes to either side do not show on the other": for EVERY operation kind of the mutation API
-   (step: the three setters, the list facades, the operators, the loops, the constructor with relations, ...),
+   (step: the three setters, the list facades, the operators, the loops, the bulk assignments on task lists, the
+   constructor with relations, ... - all 26 kinds),
    accepted or raising, if every object the call names is a task of one side (tasks of that WBS or its hidden
    root as the owner of wbs.roots) - and a WBS named by wbs.remove / remove_all is that side's - then every task of
    the other side keeps ALL its fields (the whole record).  pub_args: the call names objects a Python caller can
